@@ -172,3 +172,51 @@ pub fn roots_adapters(cx: &mut std::task::Context<'_>) {
         for _ in m.pending() {}
     }
 }
+
+// ------------------------------------------------------------------------------------------------
+// Fixtures: deliberately wrong code that the zero-count rules MUST hit on every run (a rule that
+// cannot see its own fixture has gone blind). Type-checked only, never executed, never part of any
+// analysed cone of the library.
+// ------------------------------------------------------------------------------------------------
+
+pub struct FixtureToken(pub Box<u8>);
+impl Clone for FixtureToken {
+    fn clone(&self) -> Self {
+        FixtureToken(self.0.clone())
+    }
+}
+
+/// a "handler" that locks, allocates, frees, yields and formats
+pub fn roots_fixture_effects(m: &std::sync::Mutex<Vec<u8>>) {
+    let mut g = m.lock().unwrap();
+    g.push(1);
+    let b = Box::new(5u64);
+    drop(b);
+    std::thread::yield_now();
+    eprintln!("fixture {}", g.len());
+    std::process::exit(3);
+}
+
+/// bitwise duplication / leaking of an owning value
+pub fn roots_fixture_escapes(t: FixtureToken) {
+    let c = t.clone();
+    let d = unsafe { std::ptr::read(&c) };
+    std::mem::forget(c);
+    let _e = std::mem::ManuallyDrop::new(d);
+    drop(t);
+}
+
+/// weak orderings and a non-CAS write
+pub fn roots_fixture_orderings(a: &std::sync::atomic::AtomicUsize, w: &std::sync::atomic::AtomicU16) -> usize {
+    use std::sync::atomic::Ordering;
+    a.fetch_add(1, Ordering::Relaxed);
+    w.store(3, Ordering::Relaxed);
+    a.load(Ordering::Acquire)
+}
+
+/// a loop that waits for another thread
+pub fn roots_fixture_wait_loop(a: &std::sync::atomic::AtomicUsize) {
+    while a.load(std::sync::atomic::Ordering::SeqCst) != 0 {
+        std::hint::spin_loop();
+    }
+}
